@@ -246,10 +246,10 @@ Fixpoint collect_data (s : fs) (ids : list nat) : option observable :=
   end.
 
 Lemma recover_patch_cases s i : recover_patch s i = None \/ recover_patch s i = patch_data (s (PData i)).
-Proof. unfold recover_patch. destruct (s (PMeta i)) as [[| | [|] | | | | |]|]; auto. Qed.
+Proof. unfold recover_patch. destruct (s (PMeta i)) as [[| | [|] | | | | | |]|]; auto. Qed.
 
 Lemma recover_patch_fine s i : meta_fine (s (PMeta i)) = true -> recover_patch s i = patch_data (s (PData i)).
-Proof. unfold recover_patch, meta_fine. destruct (s (PMeta i)) as [[| | [|] | | | | |]|]; auto; discriminate. Qed.
+Proof. unfold recover_patch, meta_fine. destruct (s (PMeta i)) as [[| | [|] | | | | | |]|]; auto; discriminate. Qed.
 
 Lemma collect_cases s ids : collect s ids = None \/ collect s ids = collect_data s ids.
 Proof.
@@ -278,7 +278,7 @@ Lemma recover_meta_only strict s s' :
   recover_cat strict s = Err \/ recover_cat strict s = recover_cat strict s'.
 Proof.
   intros Hr Hi Hd Hm. unfold recover_cat. rewrite Hr, Hi. unfold ids_of in Hm.
-  destruct (s' PRoot); auto. destruct (s' PIds) as [[| | | | |ids| |]|]; auto.
+  destruct (s' PRoot); auto. destruct (s' PIds) as [[| | | | |ids| | |]|]; auto.
   destruct (strict && is_nil ids); auto.
   rewrite (collect_all_fine s' ids Hm). destruct (collect_cases s ids) as [E|E]; rewrite E; auto.
   rewrite (collect_data_ext s s' ids Hd). auto.
@@ -323,11 +323,11 @@ Lemma wf_cat_inv s : wf_cat s ->
     forall i, In i ids -> (exists x, patch_data (s (PData i)) = Some x) /\ meta_fine (s (PMeta i)) = true.
 Proof.
   unfold wf_cat, wf_cat_b. intro H. apply andb_true_iff in H. destruct H as [Hr H].
-  destruct (s PRoot) as [r|]; [|discriminate]. destruct (s PIds) as [[| | | | |ids| |]|]; try discriminate.
+  destruct (s PRoot) as [r|]; [|discriminate]. destruct (s PIds) as [[| | | | |ids| | |]|]; try discriminate.
   apply andb_true_iff in H. destruct H as [_ H]. rewrite forallb_forall in H.
   exists r, ids. repeat split; try reflexivity; specialize (H i H0); apply andb_true_iff in H; destruct H as [H1 H2].
   - destruct (patch_data (s (PData i))) as [x|]; [eauto|discriminate].
-  - unfold meta_fine. destruct (s (PMeta i)) as [[| | [|] | | | | |]|]; auto; discriminate.
+  - unfold meta_fine. destruct (s (PMeta i)) as [[| | [|] | | | | | |]|]; auto; discriminate.
 Qed.
 
 (* metadata computation on an existing catalog: error or the catalog itself, at every point *)
@@ -519,7 +519,7 @@ Theorem crash_safe_triple_fix s0 v k :
 Proof.
   intro ops. unfold ops, ops_triple_fix, ops_triple_cur, recover_triple.
   destruct (s0 PSmp) as [cs|] eqn:Es; destruct (s0 PCov) as [cc|] eqn:Ec; simpl present; cbv iota; simpl app;
-    do 9 (destruct k as [|k]; [simpl; rewrite ?Es; simpl; auto; destruct (s0 PDat) as [[| | | | | |[]|]|]; simpl; auto|]);
+    do 9 (destruct k as [|k]; [simpl; rewrite ?Es; simpl; auto; destruct (s0 PDat) as [[| | | | | |[]| |]|]; simpl; auto|]);
     simpl; auto.
 Qed.
 
@@ -716,7 +716,7 @@ Lemma read_all_gone nr : forall s p, In p nr -> s p = None -> read_all s nr = No
 Proof.
   induction nr as [|q nr IH]; intros s p Hin E; [destruct Hin|]. simpl. destruct Hin as [->|Hin].
   - rewrite E. reflexivity.
-  - rewrite (IH s p Hin E). destruct (s q) as [[| | | | | |[]|]|]; reflexivity.
+  - rewrite (IH s p Hin E). destruct (s q) as [[| | | | | |[]| |]|]; reflexivity.
 Qed.
 
 Lemma read_all_cases v nr : forall s,
@@ -725,7 +725,7 @@ Lemma read_all_cases v nr : forall s,
 Proof.
   induction nr as [|q nr IH]; intros s H; [right; reflexivity|]. simpl.
   destruct (IH s (fun p Hp => H p (or_intror Hp))) as [E|E]; rewrite E.
-  - left. destruct (s q) as [[| | | | | |[]|]|]; reflexivity.
+  - left. destruct (s q) as [[| | | | | |[]| |]|]; reflexivity.
   - destruct (H q (or_introl eq_refl)) as [E1|[E1|E1]]; rewrite E1; auto.
 Qed.
 
@@ -848,4 +848,175 @@ Theorem product_names_refuted :
   recover_product nr (fs_of s_old_named) = Ok [1; 1] /\
   recover_product nr (apply (ops_product true (fs_of s_old_named) nd ws 2) (fs_of s_old_named)) = Ok [2; 2] /\
   recover_product nr (apply (firstn 2 (ops_product true (fs_of s_old_named) nd ws 2)) (fs_of s_old_named)) = Ok [2; 1].
+Proof. vm_compute. repeat split. Qed.
+
+(* ------------------------------------------------------------------ appends above the size of the user-space buffer *)
+Lemma cut_ops_touch p old rs cuts : Forall (fun o => op_path o = PData p) (cut_ops p old rs cuts).
+Proof. unfold cut_ops. apply Forall_forall. intros o H. apply in_map_iff in H. destruct H as [c [<- _]]. reflexivity. Qed.
+
+(* system calls on one file followed by one more on the same file: only the last content is seen *)
+Lemma apply_overwritten l p c s q :
+  Forall (fun o => op_path o = p) l -> apply (l ++ [Put p c]) s q = apply1 s (Put p c) q.
+Proof.
+  intro H. rewrite apply_app. change (apply [Put p c] (apply l s) q) with (apply1 (apply l s) (Put p c) q).
+  simpl. destruct (path_beq q p) eqn:E; [reflexivity|].
+  apply apply_untouched. apply (touch_other l p q); [|exact H]. intros ->. rewrite path_beq_refl in E. discriminate.
+Qed.
+
+Lemma ops_bpieces_nocuts : forall ps acc, ops_bpieces acc (map (fun pc => (pc, [])) ps) = ops_pieces acc ps.
+Proof.
+  induction ps as [|[p rs] ps IH]; intro acc; simpl; [reflexivity|].
+  destruct (acc_get acc p) as [old|]; rewrite IH; reflexivity.
+Qed.
+
+Lemma ops_bpieces_touch : forall bps acc, Forall (fun o => op_path o <> PIds) (fst (ops_bpieces acc bps)).
+Proof.
+  induction bps as [|[[p rs] cuts] bps IH]; intro acc; simpl; [constructor|].
+  destruct (acc_get acc p) as [old|].
+  - specialize (IH (acc_set acc p (old ++ rs))). destruct (ops_bpieces (acc_set acc p (old ++ rs)) bps). simpl in *.
+    apply Forall_app. split.
+    + apply (touch_other _ (PData p) PIds); [discriminate|apply cut_ops_touch].
+    + constructor; [discriminate|exact IH].
+  - specialize (IH (acc_set acc p rs)). destruct (ops_bpieces (acc_set acc p rs) bps). simpl in *.
+    repeat (constructor; [discriminate|]). apply Forall_app. split.
+    + apply (touch_other _ (PData p) PIds); [discriminate|apply cut_ops_touch].
+    + constructor; [discriminate|exact IH].
+Qed.
+
+Lemma bcreate_body_touch bps : Forall (fun o => op_path o <> PIds) (ops_bcreate_body bps).
+Proof. unfold ops_bcreate_body. constructor; [discriminate|apply ops_bpieces_touch]. Qed.
+
+(* however the pieces are cut: the same accumulated records and, file by file, the same final state *)
+Lemma bpieces_final : forall bps acc,
+  snd (ops_bpieces acc bps) = snd (ops_pieces acc (unbuf bps)) /\
+  forall s q, apply (fst (ops_bpieces acc bps)) s q = apply (fst (ops_pieces acc (unbuf bps))) s q.
+Proof.
+  induction bps as [|[[p rs] cuts] bps IH]; intro acc; simpl; [split; reflexivity|].
+  destruct (acc_get acc p) as [old|].
+  - destruct (IH (acc_set acc p (old ++ rs))) as [H1 H2].
+    destruct (ops_bpieces (acc_set acc p (old ++ rs)) bps) as [ob ab].
+    destruct (ops_pieces (acc_set acc p (old ++ rs)) (unbuf bps)) as [o a]. simpl in *.
+    split; [exact H1|]. intros s q.
+    replace (cut_ops p old rs cuts ++ Put (PData p) (DataF true (old ++ rs)) :: ob)
+      with ((cut_ops p old rs cuts ++ [Put (PData p) (DataF true (old ++ rs))]) ++ ob) by (rewrite <- app_assoc; reflexivity).
+    rewrite apply_app, H2.
+    change (apply (Put (PData p) (DataF true (old ++ rs)) :: o) s q)
+      with (apply o (apply1 s (Put (PData p) (DataF true (old ++ rs)))) q).
+    apply apply_cong. apply apply_overwritten, cut_ops_touch.
+  - destruct (IH (acc_set acc p rs)) as [H1 H2].
+    destruct (ops_bpieces (acc_set acc p rs) bps) as [ob ab].
+    destruct (ops_pieces (acc_set acc p rs) (unbuf bps)) as [o a]. simpl in *.
+    split; [exact H1|]. intros s q.
+    set (s3 := apply1 (apply1 (apply1 s (Put (PDir p) Dir)) (Put (PData p) (DataF false []))) (Put (PData p) (DataF true []))).
+    change (apply (cut_ops p [] rs cuts ++ Put (PData p) (DataF true rs) :: ob) s3 q
+            = apply o (apply1 s3 (Put (PData p) (DataF true rs))) q).
+    replace (cut_ops p [] rs cuts ++ Put (PData p) (DataF true rs) :: ob)
+      with ((cut_ops p [] rs cuts ++ [Put (PData p) (DataF true rs)]) ++ ob) by (rewrite <- app_assoc; reflexivity).
+    rewrite apply_app, H2. apply apply_cong. apply apply_overwritten, cut_ops_touch.
+Qed.
+
+Lemma collect_ext s s' ids : (forall q, s q = s' q) -> collect s ids = collect s' ids.
+Proof. intro H. induction ids as [|i ids IH]; simpl; [reflexivity|]. unfold recover_patch. rewrite !H, IH. reflexivity. Qed.
+
+Lemma recover_cat_ext strict s s' : (forall q, s q = s' q) -> recover_cat strict s = recover_cat strict s'.
+Proof.
+  intro H. unfold recover_cat. rewrite !H. destruct (s' PRoot); [|reflexivity].
+  destruct (s' PIds) as [[| | | | |ids| | |]|]; try reflexivity. rewrite (collect_ext s s' ids H). reflexivity.
+Qed.
+
+Lemma bcreate_state bps s0 q : apply (ops_bcreate bps) s0 q = apply (ops_create (unbuf bps)) s0 q.
+Proof.
+  unfold ops_bcreate, ops_create. rewrite !apply_app. apply apply_cong. apply apply_cong.
+  unfold ops_bcreate_body, ops_create_body.
+  change (apply (fst (ops_bpieces [] bps)) (apply1 s0 (Put PRoot Dir)) q
+          = apply (fst (ops_pieces [] (unbuf bps))) (apply1 s0 (Put PRoot Dir)) q).
+  apply (proj2 (bpieces_final bps [])).
+Qed.
+
+(* an uninterrupted creation leaves the same catalog however the appends were cut into system calls *)
+Theorem bcreate_final strict bps s0 :
+  recover_cat strict (apply (ops_bcreate bps) s0) = recover_cat strict (apply (ops_create (unbuf bps)) s0).
+Proof. apply recover_cat_ext. intro q. apply bcreate_state. Qed.
+
+Theorem bcreate_complete strict bps s0 :
+  bps <> [] -> (forall bp, In bp bps -> snd (fst bp) <> []) ->
+  recover_cat strict (apply (ops_bcreate bps) s0)
+  = Ok (map (fun i => (i, recs_for (unbuf bps) i)) (created_ids (unbuf bps))).
+Proof.
+  intros Hne Hall. rewrite bcreate_final. apply create_complete.
+  - unfold unbuf. destruct bps; [congruence|discriminate].
+  - intros pc Hin. unfold unbuf in Hin. apply in_map_iff in Hin. destruct Hin as [bp [<- Hin]]. apply Hall. exact Hin.
+Qed.
+
+(* whatever the body of the creation is, as long as it does not touch patch_ids.bin and the marker comes after it *)
+Lemma crash_safe_marker_last (body : list fop) ps s0 k :
+  Forall (fun o => op_path o <> PIds) body -> s0 PIds = None ->
+  let ops := body ++ ops_create_ids ps ++ ops_meta_all (created_ids ps) in
+  In (recover_cat true (apply (firstn k ops) s0)) [Err; recover_cat true (apply ops s0)].
+Proof.
+  intros Hb H0 ops. unfold ops.
+  destruct (firstn_app_cases k body (ops_create_ids ps ++ ops_meta_all (created_ids ps))) as [[_ ->]|[j [_ ->]]].
+  - left. symmetry. apply recover_no_ids. rewrite apply_untouched; [exact H0|]. apply Forall_firstn, Hb.
+  - rewrite !apply_app. set (s1 := apply body s0).
+    destruct j as [|[|j]].
+    + left. symmetry. simpl. apply recover_no_ids. unfold s1. rewrite apply_untouched; [exact H0|exact Hb].
+    + left. simpl. unfold recover_cat. simpl. destruct (s1 PRoot); reflexivity.
+    + change (firstn (S (S j)) (ops_create_ids ps ++ ops_meta_all (created_ids ps)))
+        with (ops_create_ids ps ++ firstn j (ops_meta_all (created_ids ps))).
+      rewrite !apply_app. set (s2 := apply (ops_create_ids ps) s1).
+      rewrite ops_meta_all_eq.
+      pose proof (ops_metadata_shape empty_fs (created_ids ps)) as Hsh.
+      assert (Hsh' : Forall is_meta_put (firstn j (ops_metadata empty_fs (created_ids ps)))) by (apply Forall_firstn; exact Hsh).
+      assert (Hids : s2 PIds = Some (IdsF (created_ids ps))) by reflexivity.
+      destruct (recover_meta_only true (apply (firstn j (ops_metadata empty_fs (created_ids ps))) s2)
+                                       (apply (ops_metadata empty_fs (created_ids ps)) s2)) as [E|E].
+      * rewrite !meta_puts_untouched; auto; discriminate.
+      * rewrite !meta_puts_untouched; auto; discriminate.
+      * intro i. rewrite !meta_puts_untouched; auto; discriminate.
+      * unfold ids_of. rewrite meta_puts_untouched; [|exact Hsh|discriminate]. rewrite Hids.
+        intros i Hin. apply meta_final. right. split; [exact Hin|reflexivity].
+      * rewrite E. simpl. auto.
+      * rewrite E. simpl. auto.
+Qed.
+
+(* for EVERY way the appends are cut into system calls (complete or torn records in between) *)
+Theorem crash_safe_bcreate bps s0 k :
+  s0 PIds = None ->
+  let ops := ops_bcreate bps in
+  In (recover_cat true (apply (firstn k ops) s0)) [Err; recover_cat true (apply ops s0)].
+Proof. intros H0 ops. unfold ops, ops_bcreate. apply crash_safe_marker_last; [apply bcreate_body_touch|exact H0]. Qed.
+
+Theorem crash_safe_boverwrite l order bps k :
+  wf_cat (fs_of l) -> valid_order_b l order = true ->
+  let s0 := fs_of l in
+  let ops := ops_boverwrite order bps in
+  In (recover_cat true (apply (firstn k ops) s0)) [Err; recover_cat true s0; recover_cat true (apply ops s0)].
+Proof.
+  intros Hwf Hval s0 ops. unfold ops, ops_boverwrite.
+  destruct (firstn_app_cases k (map Del order) (ops_bcreate bps)) as [[_ ->]|[j [_ ->]]].
+  - rewrite firstn_map. destruct (recover_sub true (apply (map Del (firstn k order)) s0) s0 Hwf (del_sub _ _)) as [E|E]; rewrite E; simpl; auto.
+  - rewrite !apply_app. set (s1 := apply (map Del order) s0).
+    assert (H1 : s1 PIds = None).
+    { unfold s1. apply del_gone. destruct (wf_cat_inv _ Hwf) as [r [ids [_ [Hi _]]]].
+      apply fs_of_in in Hi. unfold valid_order_b in Hval. apply andb_true_iff in Hval. destruct Hval as [Hc _].
+      unfold covers in Hc. rewrite forallb_forall in Hc. apply mem_path_In. apply (Hc _ Hi). }
+    destruct (crash_safe_bcreate bps s1 j H1) as [E|[E|[]]]; rewrite <- E; simpl; auto.
+Qed.
+
+(* the marker after the whole body IS the safe order ... *)
+Lemma bcreate_early_all bps : ops_bcreate_early (length (ops_bcreate_body bps)) bps = ops_bcreate bps.
+Proof. unfold ops_bcreate_early, ops_bcreate. rewrite firstn_all, skipn_all. reflexivity. Qed.
+
+(* ... and any earlier point is not: patch 0 receives [0;1;2] (two system calls) and later [4;5] (two system calls,
+   the first ends inside a record), patch 1 receives [3].  patch_ids.bin written while the second piece of patch 0
+   is still in a user-space buffer (after 10 of the 12 system calls of the body): a crash right after the marker
+   leaves a catalog that opens without error and lacks the records 4 and 5 *)
+Definition bps_demo : list bpiece := [((0, [0; 1; 2]), [(2, false)]); ((1, [3]), []); ((0, [4; 5]), [(1, true)])].
+Theorem marker_before_flush_refuted :
+  let ops := ops_bcreate_early 10 bps_demo in
+  length (ops_bcreate_body bps_demo) = 12 /\
+  recover_cat true (apply ops empty_fs) = Ok [(0, [0; 1; 2; 4; 5]); (1, [3])] /\
+  recover_cat true (apply (ops_bcreate bps_demo) empty_fs) = Ok [(0, [0; 1; 2; 4; 5]); (1, [3])] /\
+  recover_cat true (apply (firstn 12 ops) empty_fs) = Ok [(0, [0; 1; 2]); (1, [3])] /\
+  recover_cat true (apply (firstn 13 ops) empty_fs) = Err.
 Proof. vm_compute. repeat split. Qed.
